@@ -176,7 +176,7 @@ func (a *c44Appender) Commit() error {
 	a.pend = nil
 	return nil
 }
-func (a *c44Appender) Rollback() error                     { a.pend = nil; return nil }
+func (a *c44Appender) Rollback() error                   { a.pend = nil; return nil }
 func (a *c44Appender) SetOptions(*storage.AppendOptions) {}
 func (a *c44Appender) AppendExemplar(storage.SeriesRef, labels.Labels, exemplar.Exemplar) (storage.SeriesRef, error) {
 	return 0, nil
